@@ -160,7 +160,9 @@ Chose ==
                   /\ ~(e.now - Oldest(e.m) > T.lag)
                THEN {"lag"} ELSE {}
          f4 == IF e.m # 0 /\ e.m \notin keys THEN {"chosestale"} ELSE {}
-     IN /\ flags' = flags \cup f1 \cup f2 \cup f3 \cup f4
+         \* nothing chosen although a metric's oldest datapoint is older than the lag at the time the strategy looked
+         f5 == IF T.strategy = "timesorted" /\ T.lag > 0 /\ e.m = 0 /\ Eligible(e.now) # {} THEN {"lagstarved"} ELSE {}
+     IN /\ flags' = flags \cup f1 \cup f2 \cup f3 \cup f4 \cup f5
         /\ remaining' = IF T.strategy \in PassStrategies THEN rem \ {e.m} ELSE remaining
         /\ chosen' = e.m
         /\ pend' = [t \in Threads |-> IF pend[t].op = "store" /\ e.m # 0 /\ pend[t].m = e.m
